@@ -723,7 +723,7 @@ def analyse(job, pristine):
         if "norm" not in r:
             continue
         p = pristine.get(r["resolved"])
-        if p == ("timeout",):
+        if is_timeout(p):
             continue
         if p != r["norm"]:
             if isinstance(p, tuple) and p and p[0] == "crash":
@@ -1065,6 +1065,11 @@ def finish_history(res, descs, job, pristine, tag, minimise_budget):
     return job, fails
 
 
+def is_timeout(n):
+    """the normalised outcome of a call stopped by the per-call time limit (list after the JSON round trip of a job frame)"""
+    return isinstance(n, (tuple, list)) and len(n) == 1 and n[0] == "timeout"
+
+
 def layout_checks(res, recs, pristine, rnd, limit):
     cands = [r for r in recs if "norm" in r and r["resolved"].get("self") and r["resolved"]["self"].get("cls") in ("Curve", "Triangle")]
     seen = set()
@@ -1085,6 +1090,11 @@ def layout_checks(res, recs, pristine, rnd, limit):
             continue
         base = strip_flags(pristine.get(r["resolved"]))
         for lay, n in j.frames[0].items():
+            if is_timeout(n) or is_timeout(base):
+                # the per-call time limit fired (a slow pure-Python call on a loaded machine): no outcome to compare - inconclusive,
+                # never a layout dependence (false alarm of the multi-seed soak, seed 11)
+                res.skip("layout-call-timeout:" + r["fn"])
+                continue
             res.count(("layout", dkey(r["resolved"]), lay), layout=lay)
             if strip_flags(n) != base:
                 res.failure("layout-dependence:%s:%s" % (r["fn"], lay),
@@ -1099,6 +1109,8 @@ def replay(res, rep, pristine):
         j = run_jobs(run_layouts, [rep["resolved"]], 1)[0]
         base = strip_flags(pristine.get(rep["resolved"]))
         for lay, n in (j.frames[0].items() if j.frames and not j.crashed else []):
+            if is_timeout(n) or is_timeout(base):
+                continue
             if (rep["layout"] in ("*", lay)) and strip_flags(n) != base:
                 res.failure("layout-dependence:%s:%s" % (rep["resolved"]["fn"], lay), "%s vs %s" % (describe(n), describe(base)), rep)
         if j.crashed:
